@@ -19,7 +19,7 @@ from .core import BitChar, HexChar, SymBool, SymInt, SymReal, SymStr, Unsupporte
 
 CTYPES = {"unsigned char": (8, False), "char": (8, True), "int": (32, True), "long": (64, True),
           "Py_ssize_t": (64, True), "bint": (1, False)}
-SCALARS = "unsigned char|Py_ssize_t|bytearray|double|long|char|int|bint|str|bytes|array\\.array"
+SCALARS = "unsigned char|Py_ssize_t|bytearray|double|float|long|char|int|bint|str|bytes|array\\.array"
 
 
 class COverflow(Exception):
@@ -279,6 +279,14 @@ def c_cast(t, v):
         if is_sym(v) or type(v).__name__ == "SymFP":
             return v
         return float(v)
+    if t == "float":        # IEEE single: round to binary32 and widen again
+        if type(v).__name__ == "SymFP":
+            from . import fp as _fp
+            return _fp.SymFP(z3.fpToFP(z3.RNE(), z3.fpToFP(z3.RNE(), v.t, z3.Float32()), z3.Float64()), v.np, v.opaque)
+        if is_sym(v):
+            raise Unsupported("C float of %s" % type(v).__name__)
+        import struct
+        return struct.unpack("f", struct.pack("f", float(v)))[0]
     if t == "bint":
         return v if isinstance(v, (SymBool, bool)) else (v != 0)
     bits, signed = CTYPES[t]
